@@ -6,6 +6,7 @@ import (
 	"fmt"
 	"os"
 	"path/filepath"
+	"regexp"
 	"runtime"
 	"runtime/debug"
 	"strings"
@@ -142,6 +143,14 @@ func c19Commands(scanDir string) []c19Cmd {
 			}
 			return bin(dir, "mixin", "--ignore-conflicts", in, mix, "-o", out, "--format", format)
 		}},
+		{"mixin-keep-spec-order", func(dir, in, out, format string, pretty bool) error {
+			mix := filepath.Join(dir, "mixin-empty.json")
+			if _, err := os.Stat(mix); err != nil {
+				_ = os.WriteFile(mix, []byte(`{"swagger":"2.0","info":{"title":"m","version":"1"},"paths":{}}`), 0o644)
+			}
+			// --keep-spec-order pre-processes the mixed-in files: the document under test is the mixed-in one
+			return bin(dir, "mixin", "--keep-spec-order", "--ignore-conflicts", mix, in, "-o", out, "--format", format)
+		}},
 		{"flatten-full", func(dir, in, out, format string, pretty bool) error {
 			return bin(dir, "flatten", "--with-flatten=full", in, "-o", out, "--format", format)
 		}},
@@ -184,6 +193,8 @@ func safeRun(f func() error) (err error, panicked string) {
 
 func scalarClass(name string) string { return name }
 
+var rxQuotedStatusKey = regexp.MustCompile(`(?m)^(\s*)"([1-5]\d{2})":`)
+
 // c19Check runs one (command, document) through the four in/out format combinations.
 func c19Check(dir string, cmd c19Cmd, cs c19Case, allCombos bool) (string, []evid.Violation) {
 	var vs []evid.Violation
@@ -218,6 +229,17 @@ func c19Check(dir string, cmd c19Cmd, cs c19Case, allCombos bool) (string, []evi
 	outBytes := map[string][]byte{}
 	type combo struct{ in, inPath, format string }
 	combos := []combo{{"json", inJ, "json"}, {"json", inJ, "yaml"}}
+	// a second YAML rendering, the way specs are written by hand: status-code keys unquoted (YAML ints)
+	inYP := filepath.Join(dir, "in-plainkeys.yaml")
+	ybp := rxQuotedStatusKey.ReplaceAll(yb, []byte("$1$2:"))
+	plainOK := false
+	if yamlInputOK && !bytes.Equal(ybp, yb) {
+		_ = os.WriteFile(inYP, ybp, 0o644)
+		if lp, err := loadAsJSON(inYP); err == nil && jsonEqualNum(lj, lp) {
+			plainOK = true
+			combos = append(combos, combo{"yaml-plainkeys", inYP, "json"})
+		}
+	}
 	if yamlInputOK {
 		combos = append(combos, combo{"yaml", inY, "json"})
 		if allCombos {
@@ -270,6 +292,14 @@ func c19Check(dir string, cmd c19Cmd, cs c19Case, allCombos bool) (string, []evi
 		} else if _, bad := jj.(string); !bad && !jsonEqualNum(jj, yj) {
 			viol(fmt.Sprintf("yaml-input-differs %s %s", cmd.Name, cs.Pos), "result for YAML input differs from result for JSON input: first difference at "+firstDiff(jj, yj, ""), nil)
 		}
+		if plainOK {
+			pj := outs["yaml-plainkeys->json"]
+			if sp, ok := pj.(string); ok {
+				viol(fmt.Sprintf("yaml-input-fails %s %s", cmd.Name, cs.Pos), "command succeeds on the JSON rendering of the input but not on the YAML rendering with unquoted status codes: "+sp, string(ybp))
+			} else if _, bad := jj.(string); !bad && !jsonEqualNum(jj, pj) {
+				viol(fmt.Sprintf("yaml-input-differs(unquoted status codes) %s %s", cmd.Name, cs.Pos), "result for YAML input with unquoted status-code keys differs from result for JSON input: first difference at "+firstDiff(jj, pj, ""), nil)
+			}
+		}
 		if yy, ok := outs["yaml->yaml"]; ok {
 			if _, bad := yy.(string); !bad {
 				if _, bad2 := jj.(string); !bad2 && !jsonEqualNum(jj, yy) {
@@ -306,23 +336,39 @@ func numToYAML(v interface{}) interface{} {
 		n.Value = string(t)
 		return &n
 	case map[string]interface{}:
-		o := map[string]interface{}{}
-		for k, x := range t {
-			o[k] = numToYAML(x)
+		// a mapping node with the keys in the same (bytewise sorted) order as the JSON rendering:
+		// commands that keep the textual order (--keep-spec-order) must see the same order in both
+		n := &yaml.Node{Kind: yaml.MappingNode, Tag: "!!map"}
+		for _, k := range sortedKeys(t) {
+			kn := &yaml.Node{}
+			_ = kn.Encode(k)
+			vn := &yaml.Node{}
+			switch x := numToYAML(t[k]).(type) {
+			case *yaml.Node:
+				vn = x
+			default:
+				_ = vn.Encode(x)
+			}
+			n.Content = append(n.Content, kn, vn)
 		}
-		return o
+		return n
 	case []interface{}:
-		o := make([]interface{}, len(t))
-		for i, x := range t {
-			o[i] = numToYAML(x)
+		n := &yaml.Node{Kind: yaml.SequenceNode, Tag: "!!seq"}
+		for _, x := range t {
+			vn := &yaml.Node{}
+			switch y := numToYAML(x).(type) {
+			case *yaml.Node:
+				vn = y
+			default:
+				_ = vn.Encode(y)
+			}
+			n.Content = append(n.Content, vn)
 		}
-		return o
+		return n
 	}
 	return v
 }
 
-// jsonEqualNum compares decoded JSON (json.Number aware: numbers are equal when they denote the
-// same float64 - both loaders go through float64 - and have the same integer-ness).
 func jsonEqualNum(a, b interface{}) bool { return firstDiffNum(a, b) }
 
 func firstDiffNum(a, b interface{}) bool {
@@ -465,6 +511,9 @@ func RunC19(tier string, replay string) int {
 	}
 	docs, st := xplore.Collect(xplore.Options{MaxDeviations: -1}, func(c *xplore.Ctx) docCase {
 		d := baseDoc()
+		// an inline schema under a numeric status-code key, and an inline body schema
+		at(d, "paths", "/a", "get", "responses")["201"] = J{"description": "made", "schema": J{"type": "object", "properties": J{"b": J{"type": "string"}, "a": J{"type": "integer"}}}}
+		addParam(d, "/a", "get", J{"in": "body", "name": "body", "schema": J{"type": "object", "properties": J{"z": J{"type": "string"}, "y": J{"type": "array", "items": J{"type": "object", "properties": J{"k": J{"type": "boolean"}}}}}}})
 		if c.Choose(2, "kind") == 0 {
 			sc := scalars[c.Choose(len(scalars), "scalar")]
 			p := positions[c.Choose(len(positions), "position")]
@@ -498,9 +547,13 @@ func RunC19(tier string, replay string) int {
 	})
 	r.Extra["documents"] = len(docs)
 	r.Extra["choice_points"] = st.Points
-	ncmd := 3
+	byName := map[string]c19Cmd{}
+	for _, c := range cmds {
+		byName[c.Name] = c
+	}
+	docCmds := []c19Cmd{byName["flatten"], byName["expand"], byName["mixin"], byName["mixin-keep-spec-order"]}
 	if tier == "thorough" {
-		ncmd = 4
+		docCmds = append(docCmds, byName["flatten-full"])
 	}
 	type job struct {
 		cmd c19Cmd
@@ -508,12 +561,12 @@ func RunC19(tier string, replay string) int {
 	}
 	var jobs []job
 	for _, dc := range docs {
-		for _, c := range cmds[:ncmd] {
+		for _, c := range docCmds {
 			jobs = append(jobs, job{c, dc})
 		}
 	}
 	// generate spec (packages.Load per call): a 12-scalar slice in the quick tier, all scalars at 4 positions in thorough
-	gs := cmds[4]
+	gs := byName["generate-spec"]
 	for _, dc := range docs {
 		use := false
 		if tier == "thorough" {
